@@ -104,7 +104,10 @@ impl Scheduler for SimScheduler {
             st.max_tasks = st.max_tasks.max(ids.iter().copied().max().unwrap_or(0) + 1);
             st.steps - 1
         };
-        if step >= N_ADV + N_FAIR {
+        // The hard stop after N_ADV + N_FAIR steps is shuttle's own step bound (it unwinds the
+        // runner and leaks the blocked coroutines instead of running their destructors, which may
+        // themselves contain scheduling points). This is only a second line of defence.
+        if step >= 2 * (N_ADV + N_FAIR) {
             self.state.lock().unwrap().no_progress = true;
             return None;
         }
